@@ -80,6 +80,29 @@ def fold(e, env):
         return {fold(k, env): fold(v, env) for k, v in zip(e.keys, e.values)}
     if isinstance(e, ast.UnaryOp) and isinstance(e.op, ast.Not):
         return not fold(e.operand, env)
+    if isinstance(e, ast.UnaryOp) and isinstance(e.op, ast.USub):
+        return -fold(e.operand, env)
+    if isinstance(e, ast.BinOp):
+        l, r = fold(e.left, env), fold(e.right, env)
+        try:
+            if isinstance(e.op, ast.Add):
+                return l + r
+            if isinstance(e.op, ast.Sub):
+                return l - r
+            if isinstance(e.op, ast.Mult):
+                return l * r
+            if isinstance(e.op, ast.Mod):
+                return l % r
+            if isinstance(e.op, ast.FloorDiv):
+                return l // r
+        except Exception:
+            raise _NoFold
+        raise _NoFold
+    if isinstance(e, ast.Attribute) or isinstance(e, ast.Subscript) and not isinstance(e.slice, ast.Constant):
+        k = ' '.join(ast.unparse(e).split())
+        if k in env:
+            return env[k]
+        raise _NoFold
     if isinstance(e, ast.BoolOp):
         if isinstance(e.op, ast.Or):
             unknown = False
@@ -119,6 +142,14 @@ def fold(e, env):
                     r = left is right
                 elif isinstance(op, ast.IsNot):
                     r = left is not right
+                elif isinstance(op, ast.Lt):
+                    r = left < right
+                elif isinstance(op, ast.LtE):
+                    r = left <= right
+                elif isinstance(op, ast.Gt):
+                    r = left > right
+                elif isinstance(op, ast.GtE):
+                    r = left >= right
                 else:
                     raise _NoFold
             except TypeError:
@@ -149,6 +180,9 @@ def fold(e, env):
                 return getattr(recv, e.func.attr)(*args)
         raise _NoFold
     if isinstance(e, ast.Subscript) and isinstance(e.slice, ast.Constant):
+        k = ' '.join(ast.unparse(e).split())
+        if k in env:
+            return env[k]
         return fold(e.value, env)[e.slice.value]
     if isinstance(e, ast.IfExp):
         return fold(e.body, env) if fold(e.test, env) else fold(e.orelse, env)
